@@ -24,10 +24,11 @@ var devKnown = map[byte]string{
 	'e': "C15-nil-embedded-pointer",
 	'n': "C15-tight-nil-pointer",
 	'm': "C15-alt-map-nil",
+	'o': "C15-omitempty-nested",
 }
 
 // which deviation flags can affect which model interpreter
-var devOf = map[string]string{"oj": "lxyen", "sen": "lxye", "alt": "xem"}
+var devOf = map[string]string{"oj": "lxyeno", "sen": "lxyeo", "alt": "xem"}
 
 // genC15 produces the case stream of one shard.
 func genC15(r *lib.Rng, n int, emit func(*c15Case)) {
